@@ -12,6 +12,7 @@ import (
 	"github.com/bradenaw/juniper/xsync"
 	"pgregory.net/rapid"
 
+	"verif/harness/sk"
 	"verif/harness/vk"
 )
 
@@ -192,7 +193,7 @@ func script(l *gatedLocker, c *xsync.ContextCond, p Round, out *vk.Outcome, ever
 	}
 	start := func(i int) {
 		w := &waiter{gate: make(chan struct{}), done: make(chan struct{})}
-		w.ctx, w.cancel = context.WithCancel(context.Background())
+		w.ctx, w.cancel = sk.WithCancel(context.Background())
 		if pre(i) {
 			w.cancel()
 			cancelled[i] = true
@@ -600,7 +601,7 @@ func runBStorm(p BStormPlan) (out vk.Outcome, verr error) {
 					verr = vk.Violf("panic", "panic inside bubble: %v", r)
 				}
 			}()
-			ended, cancel := context.WithCancel(context.Background())
+			ended, cancel := sk.WithCancel(context.Background())
 			cancel()
 			for round := 0; round < p.Rounds && verr == nil; round++ {
 				var l sync.Locker = make(chanLock, 1)
@@ -611,7 +612,7 @@ func runBStorm(p BStormPlan) (out vk.Outcome, verr error) {
 				if p.Shared {
 					c.Broadcast() // nobody is waiting yet
 				}
-				live, stopAll := context.WithCancel(context.Background())
+				live, stopAll := sk.WithCancel(context.Background())
 				returned := make([]atomic.Bool, p.K)
 				var wg sync.WaitGroup
 				gate := make(chan struct{})
